@@ -1045,8 +1045,11 @@ func TestMC_C16(t *testing.T) {
 		o := i % len(orders)
 		j := i / len(orders)
 		cs := c16Case{Base: c16Bases[j/len(evp)/len(evp)], Mode: "pipelined", Steps: []string{evp[(j/len(evp))%len(evp)].String(), evp[j%len(evp)].String()}, Order: orders[o]}
-		if k != "" && addState(k) && cs.Base == "b1250" && o == 1 {
-			sample("5", cs, outp[i])
+		if k != "" {
+			addState(k)
+			if cs.Base == "b1250" && o == 1 && cs.Steps[0] != cs.Steps[1] {
+				sample("5", cs, outp[i])
+			}
 		}
 		if strings.HasPrefix(outp[i], "second snapshot refused") && cs.Base == "b1250" {
 			sample("6", cs, outp[i])
